@@ -81,4 +81,44 @@ def ringCase (inp impl : String) : CaseOut :=
         nontrivial := tags.any (fun t => t = "push.grow" || t = "popN.wraps" || t = "push.wraptail") }
   | _, _ => bad "fields"
 
+/-- stream ringsched (C14, concurrency): `size=<n> progs=<op.op|op.op|…> sched=<tid>,…`; every operation of the
+    real ring is one critical section = ONE step of the model, taken in schedule order (`Len` is one atomic load). -/
+def ringSchedCase (inp impl : String) : CaseOut :=
+  let ws := words inp
+  match kvNat ws "size", kv ws "progs" with
+  | some size, some ps =>
+    if size = 0 then bad "size0" else
+    let progs : List (List String) := (ps.splitOn "|").map fun p => if p = "" then [] else p.splitOn "."
+    let sched : List Nat := match kv ws "sched" with
+      | some s => (commaList s).filterMap String.toNat?
+      | none => []
+    let stepT (st : Ring Nat × List (List String) × List (List String) × List String) (tid : Nat) :=
+      let (r, rem, res, log) := st
+      match rem[tid]? with
+      | some (op :: ops') =>
+        match parseROp op with
+        | some (.op o) =>
+          let (r', out) := r.step o
+          let lbl := match o with | .len => "len" | _ => "lock"
+          (r', rem.set tid ops', res.set tid ((res.getD tid []) ++ [showOut out]), log ++ [s!"t{tid}:{lbl}"])
+        | _ => (r, rem.set tid ops', res, log ++ [s!"t{tid}:bad"])
+      | _ => (r, rem, res, log ++ [s!"t{tid}:none"])
+    let (r, _, res, log) := sched.foldl stepT (Ring.new size, progs, progs.map (fun _ => []), [])
+    let restQ := r.abs
+    let model := String.intercalate ";" (log ++ ["end:" ++ String.intercalate "|" (res.map (String.intercalate ",")) ++
+      ":rest=" ++ String.intercalate "." (restQ.map toString)])
+    -- spec (linearizability against the FIFO, independent of the per-step labels): the results the
+    -- implementation returned must be those of the abstract queue for SOME order of the operations that
+    -- respects each thread's program order; the model's order (lock acquisition order) is the witness we
+    -- check — so a difference in the `end:` record is a linearizability failure for this schedule.
+    let implEnd := (impl.splitOn ";").getLast?.getD ""
+    let modelEnd := (model.splitOn ";").getLast?.getD ""
+    let panicked := (impl.splitOn "PANIC").length > 1
+    { model := model,
+      spec := if panicked then "FAIL:C14 a ring operation panicked under concurrency"
+              else if implEnd = modelEnd then "ok"
+              else s!"FAIL:C14 not linearizable in lock-acquisition order: implementation [{implEnd}] FIFO [{modelEnd}]",
+      tags := [s!"threads{progs.length}", s!"size{size}"], nontrivial := sched.length ≥ 4 }
+  | _, _ => bad "fields"
+
 end Driver
